@@ -85,7 +85,8 @@ AG_GETALL = dict(target=f"{AG}.getall_class", self=AG_SELF, requires=AG_REQ,
 SM = f"{W}/sample_wrappers/semi_wrapper.py::SemiWrapper"
 SM_SELF = dict(DS, semi_idxs=TSeq(INT, mutable=False))
 SM_REQ = [f"forall(lambda t: implies(0 <= t and t < len(self.semi_idxs), 0 <= self.semi_idxs[t] and self.semi_idxs[t] < {N}))"]
-SM_GETITEM = dict(target=f"{SM}.getitem_class", self=SM_SELF, params={"idx": INT, "ctx": TOpt(VAL)}, requires=SM_REQ + IDXREQ,
+SM_GETITEM = dict(target=f"{SM}.getitem_class", self=SM_SELF, params={"idx": INT, "ctx": TOpt(VAL)},
+                  requires=SM_REQ + IDXREQ + [f"{C} >= 1"],      # a labelled dataset announces at least one class
                   ensures=["result == (-1 if exists(lambda t: 0 <= t and t < len(self.semi_idxs) and self.semi_idxs[t] == idx) "
                            "else LabelOf(self.dataset, idx))", f"-1 <= result and result < {C}"])
 SM_GETALL = dict(target=f"{SM}.getall_class", self=SM_SELF, requires=SM_REQ,
